@@ -334,11 +334,10 @@ class FloorTracer:
         ev = self.env._events
         h = ev[0]
         group = [x for x in ev if x.time == h.time and x.event_type == h.event_type]
-        if len(group) > 1:
-            ch = self.force(self, group)
-            if ch is not None and ch is not h:
-                ch.random_weight = min(x.random_weight for x in group) - 1.0
-                ev.sort()
+        ch = self.force(self, group)
+        if ch is not None and ch is not h:
+            ch.random_weight = min(x.random_weight for x in group) - 1.0
+            ev.sort()
 
     # -- scripted calls --------------------------------------------------------------------------------
     def schedule_script(self):
